@@ -216,8 +216,15 @@ class RouterSpec:
         self.use = []          # Router.Use / Group.Use middlewares, chronological
         self.routes_obs = None
         self.tainted = False
+        self.illformed = False   # a pattern with braces inside names / literal text was accepted: outside the well-formedness hypothesis
+
+    def note_pattern(self, pattern):
+        segs = split_pattern(pattern, self.ic)
+        if isinstance(segs, str) or not braces_ok(segs):
+            self.illformed = True
 
     def add(self, pattern, hid, mws, methods):
+        self.note_pattern(pattern)
         ms = [m.decode('latin-1') for m in methods] or ANY
         if pattern not in self.table or not self.table[pattern]:
             self.first_ms[pattern] = list(mws)
@@ -401,7 +408,7 @@ def serve_ctx(toks, obs, w):
     if toks[0] != 'serve' or not obs.startswith('call '):
         return None
     r = w.routers.get(int(toks[1]))
-    if r is None:
+    if r is None or r.illformed:
         return None
     f = fields(obs)
     return r, f, decB(toks[2]).decode('latin-1'), decB(toks[3])
@@ -588,7 +595,7 @@ def judge_c03(ops, impl):
     for i, toks, obs, w in walk(ops, impl):
         if toks[0] == 'routes' and obs.startswith('routes '):
             r = w.routers.get(int(toks[1]))
-            if r is None:
+            if r is None or r.illformed:
                 continue
             got = parse_routes(obs)
             want = {b'*': ['OPTIONS'] + (['TRACE'] if r.trace else [])}
@@ -719,7 +726,7 @@ def judge_c09(ops, impl):
                 for rid in g['routers']:
                     if rid in w.routers and w.routers[rid].name == rname:
                         r = w.routers[rid]
-        if r is None:
+        if r is None or r.illformed:
             continue
         method = decB(toks[2]).decode('latin-1')
         pattern = decB(f['node']) if f['node'] != '-' else None
